@@ -14,7 +14,7 @@ linear_scoring = em.linear_scoring
 def run(chk):
     chk.prove()
     r = gen.rng(chk.seed, "C11")
-    n_cases = 40 if chk.tier == "quick" else 300
+    n_cases = 40 if chk.tier == "quick" else 1500
     sterms, xterms = [], []
     for i in range(n_cases):
         kind = "isv" if i % 2 else "jfa"
